@@ -43,6 +43,25 @@ THEOREMS = [
     "Verif.C10.windowed_is_mean",
     "Verif.C10.psd_bin0",
     "Verif.C10.parseval_one_sided",
+    "Verif.C10.parseval_windowed",
+    "Verif.C10.parseval_windowed_divides",
+    "Verif.C10.block_block",
+    "Verif.C10.in_range_in_range",
+    "Verif.C10.exclude_exclude",
+    "Verif.C10.in_range_exclude_comm",
+    "Verif.C10.paired_preserved",
+    "Verif.C10.fit_range_invariant",
+    "Verif.C10.initial_invariants",
+    "Verif.C10.chain_invariants",
+    "Verif.C10.chain_filter",
+    "Verif.C10.chain_order_irrelevant",
+    "Verif.C10.pipeline_in_fit_range",
+    "Verif.C10.window_points_le",
+    "Verif.C10.window_bookkeeping",
+    "Verif.C10.bin_width_constructed",
+    "Verif.C10.peaks_then_exclude",
+    "Verif.C10.peaks_then_exclude_only",
+    "Verif.C10.excludePeaks_ok",
 ]
 RULE = "filled in below"
 TRUSTED = [
@@ -250,6 +269,8 @@ def peaks_flat(f, p, table, baseline, cutoff, ans):
 
 
 _last = {}
+_chain_stats = {"whole_chain_ops": 0, "with_block>=2": 0, "range_steps_only": 0, "steps_in_whole_chains": 0,
+                "skipped_rounded_block_mean_decides_differently": 0, "skipped_other_step_kinds": 0}
 
 
 def run_chain(case):
@@ -276,6 +297,26 @@ def run_chain(case):
     # num_points_per_block=1) rebuilds the bins of objs[j] from the source data - the raw un-windowed spectrum and what
     # in_range steps make of it; None for every other object (only used when `_exclude_range` is out of reach)
     recipes = [(-1.0, float(src["fs"])) if "x" in src and src.get("ws") is None and float(src["fs"]) > 0 else None]
+    # paths[j]: the in_range / _exclude_range / downsampled_by calls that lead from the initial spectrum to objs[j] (as
+    # protocol tokens) together with the frequencies the MODEL has at that point (exact block means where the code
+    # carries rounded ones); None when the object is not the result of such calls alone, or when that difference makes
+    # a later range step decide differently on the exact and on the code's frequencies (an edge on / within rounding of
+    # a block mean: the step is then only compared on the code's own doubles, as before).  The whole path is run by the
+    # model in ONE op (c10.chain) and compared with the final object.
+    paths = [([], [F(v) for v in raw_f], False)] if raw_f is not None else [None]
+    enc_rs = lambda rs: enc_list(rs, lambda r: enc_rat(r[0]) + ":" + enc_rat(r[1]))  # noqa: E731
+
+    def extend(src_path, token, keep, f_now, blocked=False):
+        """the path extended by a range step, unless exact and rounded frequencies are told apart by it"""
+        if src_path is None or len(src_path[1]) != len(f_now):
+            return None
+        m_exact, m_code = [keep(v) for v in src_path[1]], [keep(F(v)) for v in f_now]
+        if m_exact != m_code:
+            return None
+        return (src_path[0] + [token], [v for v, k_ in zip(src_path[1], m_exact) if k_], src_path[2])
+
+    completed = False
+    last_peaks = None  # (object the latest identify_peaks ran on, its answer, flat, baseline, cutoff)
     for st, src_obj, _ in plan(case):
         if objs[0] is None:
             break
@@ -284,6 +325,7 @@ def run_chain(case):
         # a call remembers on / changes in its source (or hands on through copy()) must not show in later answers
         ps = objs[src_obj]
         recipe = None
+        path = None
         kind = st[0]
         f_in, p_in, nppb_in = ps.frequency.copy(), ps.power.copy(), int(ps.num_points_per_block)
         try:
@@ -294,14 +336,34 @@ def run_chain(case):
                 ops.append(f"c10.inrange {enc_rat(lo)} {enc_rat(hi)} {enc_rat(float(flo))} {enc_rat(float(fhi))} {ratlist(f_in)} {ratlist(p_in)}")
                 if recipes[src_obj] is not None:
                     recipe = (max(recipes[src_obj][0], lo), min(recipes[src_obj][1], hi))
+                path = extend(paths[src_obj], f"i:{enc_rat(lo)}:{enc_rat(hi)}", lambda v: F(lo) < v <= F(hi), f_in)
                 ps = ps.in_range(lo, hi)
                 fit = "?" if isinstance(fit, str) else priv(ps, "_fit_range")
                 answers.append(f"{ratlist(ps.frequency)} {ratlist(ps.power)} " + ("? ?" if isinstance(fit, str) else f"{enc_rat(float(fit[0]))} {enc_rat(float(fit[1]))}"))
             elif kind == "exclude":
+                from_peaks = len(st) > 2 and st[2] == "from-peaks"
+                if st[1] is None:
+                    # the ranges the latest identify_peaks call returned (filled in once, then part of the case)
+                    st[1] = [] if last_peaks is None else [[float(a), float(b)] for a, b in last_peaks[1]]
                 rs = [(a, b) for a, b in st[1]]
-                ops.append(f"c10.exclude {enc_list(rs, lambda r: enc_rat(r[0]) + ':' + enc_rat(r[1]))} {ratlist(f_in)} {ratlist(p_in)}")
+                composite = False
+                if from_peaks and last_peaks is not None and last_peaks[0] is ps and len(f_in) >= 2 and [list(r) for r in rs] == [[float(a), float(b)] for a, b in last_peaks[1]]:
+                    # identify_peaks -> _exclude_range as ONE model run, where the reported upper edges are exact sums
+                    # frequency[x1] + df (the model adds exactly); otherwise the plain exclusion with the code's ranges
+                    fq = [F(v) for v in f_in]
+                    dfq = fq[1] - fq[0]
+                    composite = all(F(b) - dfq in fq for _, b in rs)
+                if composite:
+                    _chain_stats["peaks_then_exclude_composite"] = _chain_stats.get("peaks_then_exclude_composite", 0) + 1
+                    ops.append(f"c10.peaksexclude {nppb_in} {enc_rat(last_peaks[3])} {enc_rat(last_peaks[4])} {enc_list(last_peaks[2], enc_rat)} {ratlist(f_in)} {ratlist(p_in)}")
+                else:
+                    if from_peaks:
+                        _chain_stats["peaks_then_exclude_plain"] = _chain_stats.get("peaks_then_exclude_plain", 0) + 1
+                    ops.append(f"c10.exclude {enc_list(rs, lambda r: enc_rat(r[0]) + ':' + enc_rat(r[1]))} {ratlist(f_in)} {ratlist(p_in)}")
                 direct = priv(ps, "_exclude_range", None)
                 if direct is not None:
+                    if not from_peaks:
+                        path = extend(paths[src_obj], "e:" + enc_rs(rs), lambda v: not any(F(a) <= v < F(b) for a, b in rs), f_in)
                     ps = direct(rs)
                 elif recipes[src_obj] is not None:
                     # the anchored private method is gone: the same exclusion on the same bins through the public call
@@ -316,6 +378,9 @@ def run_chain(case):
             elif kind == "block":
                 k = st[1]
                 ops.append(f"c10.block {k} {nppb_in} {ratlist(f_in)} {ratlist(p_in)}")
+                if paths[src_obj] is not None and k >= 1:
+                    ex = paths[src_obj][1]
+                    path = (paths[src_obj][0] + [f"b:{int(k)}"], [sum(ex[j * k : (j + 1) * k]) / k for j in range(len(ex) // k)], paths[src_obj][2] or k >= 2)
                 ps = ps.downsampled_by(k)
                 answers.append(show_ps(ps))
             elif kind == "pipeline":
@@ -334,10 +399,12 @@ def run_chain(case):
                 answers.append(f"{int(ps.num_points_per_block)} {len(ps.power)}")
             elif kind == "binwidth":
                 recipe = recipes[src_obj]
+                path = paths[src_obj]
                 ops.append(f"c10.binwidth {enc_rat(float(ps.sample_rate))} {int(ps.total_sampled_used)} {nppb_in}")
                 answers.append(enc_rat(float(ps.frequency_bin_width)))
             elif kind == "peaks":
                 recipe = recipes[src_obj]
+                path = paths[src_obj]
                 table, baseline, cutoff = st[1], st[2], st[3]
                 tab = np.array(table, dtype=float)
                 failed = None
@@ -354,6 +421,7 @@ def run_chain(case):
                 if failed is not None:
                     raise failed
                 answers.append(ans)
+                last_peaks = (ps, [(float(r[0]), float(r[1])) for r in res], flat, baseline, cutoff)
             else:
                 raise ValueError(kind)
         except Exception as e:  # mapped to the small enum, compared with the model's error answer
@@ -363,6 +431,29 @@ def run_chain(case):
             break
         objs.append(ps)
         recipes.append(recipe)
+        paths.append(path)
+    else:
+        completed = objs[0] is not None
+    if completed and len(objs) > 1 and paths[-1] is None:
+        _chain_stats["skipped_rounded_block_mean_decides_differently" if chain_path(case) is not None else "skipped_other_step_kinds"] += 1
+    if completed and len(objs) > 1 and paths[-1] is not None and len(paths[-1][0]) >= 2:
+        _chain_stats["whole_chain_ops"] += 1
+        _chain_stats["with_block>=2" if paths[-1][2] else "range_steps_only"] += 1
+        _chain_stats["steps_in_whole_chains"] += len(paths[-1][0])
+        # the whole chain of derivations in one model run, from the arrays of the initial spectrum to the final object
+        root, fin = objs[0], objs[-1]
+        try:
+            fit0, fit1 = priv(root, "_fit_range"), priv(fin, "_fit_range")
+            exc0, exc1 = priv(root, "_excluded_ranges"), priv(fin, "_excluded_ranges")
+            flo, fhi = (0.0, 0.0) if isinstance(fit0, str) else fit0
+            ops.append(f"c10.chain {int(root.num_points_per_block)} {enc_rat(float(flo))} {enc_rat(float(fhi))} {ratlist(raw_f)} {ratlist(raw_p)} " + " ".join(paths[-1][0]))
+            fit_s = "? ?" if isinstance(fit0, str) or isinstance(fit1, str) else f"{enc_rat(float(fit1[0]))} {enc_rat(float(fit1[1]))}"
+            exc_s = "?" if isinstance(exc0, str) or isinstance(exc1, str) or list(exc0) else enc_rs([(float(a), float(b)) for a, b in exc1])
+            answers.append(f"{show_ps(fin)} {fit_s} {exc_s}")
+        except Exception as e:
+            answers.append(errname(e))
+            if len(ops) < len(answers):
+                ops.append("c10.missing-op")
     _last.update(key=key, case=case, val=(answers, ops))
     return answers, ops
 
@@ -379,6 +470,18 @@ def impl(case):
                 out.append(show_psd(psd_of(data, case["fs"], case.get("ws"), case.get("ndim", 1))))
             except Exception as e:
                 out.append(errname(e))
+        if case.get("ndim", 1) == 1:
+            # the constructor's bookkeeping: total_sampled_used, num_points_per_block, the bin width before and after a
+            # block average, the initial fit range (private: only while reachable)
+            try:
+                ps = psd_of(x, case["fs"], case.get("ws"))
+                fit = priv(ps, "_fit_range")
+                fit_s = "? ?" if isinstance(fit, str) else f"{enc_float(fit[0])} {enc_float(fit[1])}"
+                k = initial_block(case)
+                out.append(f"{int(ps.total_sampled_used)} {int(ps.num_points_per_block)} {enc_rat(float(ps.frequency_bin_width))} "
+                           f"{enc_rat(float(ps.downsampled_by(k).frequency_bin_width))} {fit_s}")
+            except Exception as e:
+                out.append(errname(e))
         return out
     if case["op"] == "chain":
         return run_chain(case)[0]
@@ -388,10 +491,19 @@ def impl(case):
 def ops(case):
     if case["op"] == "psd":
         x = np.array(case["x"], dtype=float)
-        return [psd_op(d, case["fs"], case.get("ws"), case.get("ndim", 1)) for d in (x, case["a"] * x, x + case["c"])]
+        out = [psd_op(d, case["fs"], case.get("ws"), case.get("ndim", 1)) for d in (x, case["a"] * x, x + case["c"])]
+        if case.get("ndim", 1) == 1:
+            ws = case.get("ws")
+            out.append(f"c10.initial {enc_rat(case['fs'])} {enc_float(case['fs'])} {'N' if ws is None else enc_float(ws)} {len(x)} {initial_block(case)}")
+        return out
     if case["op"] == "chain":
         return run_chain(case)[1]
     raise ValueError(case["op"])
+
+
+def initial_block(case):
+    """the block size of the bin-width-after-block-averaging observation of a psd case (1..3, from the case itself)"""
+    return 1 + (len(case["x"]) + (0 if case.get("ws") is None else 1)) % 3
 
 
 def _is_err(s):
@@ -435,11 +547,14 @@ def eff_steps(case):
 
 def op_kind(case, i):
     if case["op"] == "psd":
-        return "c10.psd"
+        return "c10.psd" if i < 3 else "c10.initial"
     off = 1 if "x" in case["src"] else 0
     if i < off:
         return "c10.psd"
-    return "c10." + eff_steps(case)[i - off][0]
+    es = eff_steps(case)
+    if i - off >= len(es):
+        return "c10.chain"  # the whole chain in one model run (appended by run_chain after the last step)
+    return "c10." + es[i - off][0]
 
 
 def agree(case, i, ia, ma):
@@ -481,6 +596,25 @@ def agree(case, i, ia, ma):
             if len(a) != len(b) or any(abs(x - y) > Fraction(TOL) * max(abs(x), abs(y)) for x, y in zip(a, b)):
                 return False
         return True
+    if op == "c10.chain":
+        # [f] [p] nppb fitlo fithi [excluded]: block means within the tolerance, everything else exact (private
+        # bookkeeping only where it could be observed)
+        if len(ti) != 6 or len(tm) != 6 or ti[2] != tm[2]:
+            return False
+        for k in (0, 1):
+            a, b = _rats(ti[k]), _rats(tm[k])
+            if len(a) != len(b) or any(abs(x - y) > Fraction(TOL) * max(abs(x), abs(y)) for x, y in zip(a, b)):
+                return False
+        return (ti[3:5] == ["?", "?"] or ti[3:5] == tm[3:5]) and (ti[5] == "?" or ti[5] == tm[5])
+    if op == "c10.initial":
+        if len(ti) != 6 or len(tm) != 6 or ti[:2] != tm[:2]:
+            return False
+        if not (_close_rat(ti[2], tm[2]) and _close_rat(ti[3], tm[3])):
+            return False
+        if ti[4] == "?":
+            return True
+        hi = abs(dec_float(tm[5]))
+        return all(abs(dec_float(a) - dec_float(b)) <= TOL * hi for a, b in zip(ti[4:], tm[4:]))
     if op == "c10.binwidth":
         return _close_rat(ia, ma)
     if op == "c10.peaks":
@@ -575,6 +709,28 @@ def oracle_psd(case, ia):
         acc /= nwin
         if len(p) > 1 and np.max(np.abs(acc[1:] - p[1:])) > tol:
             return "windowed: spectrum is not the mean of the per-window spectra"
+    # Parseval for every window length (zero-frequency and Nyquist bins counted once): the one-sided spectrum integrates
+    # to the mean square deviation, from the mean of the whole signal, of the samples the windows use - the variance
+    # of the signal when the window length divides its length (parseval_windowed / parseval_windowed_divides)
+    used = x[: npw * nwin]
+    ms_used = float(np.mean((used - x.sum() / n) ** 2))
+    total_w = df * (0.5 * p[0] + p[1 : (npw + 1) // 2].sum() + (0.5 * p[npw // 2] if npw % 2 == 0 else 0.0))
+    if abs(total_w - ms_used) > TOL * msq + 1e-300:
+        return f"parseval (window of {npw} points): spectrum integrates to {total_w!r}, mean square of the used samples is {ms_used!r}"
+    if npw * nwin == n and abs(total_w - float(np.var(x))) > TOL * msq + 1e-300:
+        return f"parseval (window of {npw} points divides N): spectrum integrates to {total_w!r}, variance is {float(np.var(x))!r}"
+    if len(ia) > 3:
+        # the constructor's bookkeeping as the property reads it: bin width fs/N_w (matches the window length, whatever
+        # the remainder), multiplied by k by a block average
+        if _is_err(ia[3]):
+            return f"bookkeeping: unexpected {ia[3]}"
+        t = ia[3].split(" ")
+        k = initial_block(case)
+        bw, bwk = float(dec_rat(t[2])), float(dec_rat(t[3]))
+        if (int(t[0]), int(t[1])) != (npw * nwin, nwin) or abs(bw - fs / npw) > TOL * fs / npw or abs(bwk - k * fs / npw) > TOL * k * fs / npw:
+            return f"bookkeeping: bin width {bw!r} / {bwk!r} after blocks of {k}, expected fs/N_w = {fs / npw!r} and {k}*fs/N_w"
+        if abs(bw - (f[1] - f[0] if len(f) > 1 else bw)) > TOL * fs:
+            return "bookkeeping: frequency_bin_width is not the spacing of the frequency axis"
     a, c = case["a"], case["c"]
     _, _, _, pa = _parse_psd(ia[1])
     _, _, _, pc = _parse_psd(ia[2])
@@ -720,6 +876,7 @@ def oracle_chain(case, ia):
         ctx.update(raw=(list(f), list(p)), tsu=tsu, fs=src["fs"], nwin=int(ia[0].split(" ")[1]))
     else:
         f, p, nppb = [F(v) for v in src["freq"]], [F(v) for v in src["power"]], src.get("nppb", 1)
+    last_pk = None
     states = [(f, p, nppb)]  # states[j + 1]: the spectrum after the j-th applied step, as the property determines it
     for st, src_state, again in plan(case):
         if idx >= len(ia):
@@ -733,8 +890,63 @@ def oracle_chain(case, ia):
             return None
         if verdict:
             return ("second call on the same spectrum object: " if again else "") + verdict
+        if st[0] == "peaks" and not _is_err(ans) and len(st[1]) == len(states[src_state][1]):
+            last_pk = (src_state, st, ans)
+        if st[0] == "exclude" and len(st) > 2 and st[2] == "from-peaks" and last_pk is not None and states[last_pk[0]] == states[src_state] \
+                and [tuple(F(v) for v in r) for r in st[1]] == _pairs(last_pk[2]):
+            # the ranges identify_peaks returned, handed to the exclusion: no bin above the cut-off survives
+            f0, p0, _ = states[src_state]
+            pst = last_pk[1]
+            flat = peaks_flat(f0, p0, pst[1], pst[2], pst[3], last_pk[2])
+            if all(f0[i] < f0[i + 1] for i in range(len(f0) - 1)):
+                kept = set(state[0])
+                for i in range(len(f0)):
+                    if flat[i] > pst[3] and f0[i] in kept:
+                        return f"identify_peaks -> exclude: bin {i} exceeds the cut-off and survives the exclusion of the returned ranges"
         states.append(state)
+    if idx < len(ia) and not _is_err(ia[idx]) and ia[idx] != "?":
+        # the final object of the whole chain: a chain of range steps (no block average of >= 2 bins) keeps exactly the
+        # bins of the INITIAL spectrum that every step keeps, whatever the order; num_points_per_block is the product
+        path = chain_path(case)
+        if path is not None:
+            t = ia[idx].split(" ")
+            f0, p0, n0 = states[0]
+            prod = n0
+            for st in path:
+                if st[0] == "block":
+                    prod *= st[1]
+            if int(t[2]) != prod:
+                return f"chain: num_points_per_block={t[2]} at the end of the chain, expected {prod}"
+            if all(st[0] != "block" or st[1] == 1 for st in path):
+                keep = list(zip(f0, p0))
+                for st in sorted((st for st in path if st[0] != "block"), key=repr):
+                    if st[0] == "inrange":
+                        keep = [(a, b) for a, b in keep if F(st[1]) < a <= F(st[2])]
+                    else:
+                        keep = [(a, b) for a, b in keep if not any(F(lo) <= a < F(hi) for lo, hi in st[1])]
+                if list(zip(_rats(t[0]), _rats(t[1]))) != keep:
+                    return "chain: the final spectrum is not the initial one filtered by every range step"
     return None
+
+
+def chain_path(case):
+    """the steps leading from the initial spectrum to the last object of a chain (following plan()'s sources), or None
+    when something other than in_range / exclude / block produced an object on the way"""
+    pl = plan(case)
+    parents = [None]  # object j + 1 is produced by step j from object pl[j][1]
+    for st, src_obj, _ in pl:
+        parents.append((st, src_obj))
+    path, cur = [], len(pl)
+    while cur != 0:
+        st, src_obj = parents[cur]
+        if st[0] in ("binwidth", "peaks"):
+            cur = src_obj
+            continue
+        if st[0] not in ("inrange", "exclude", "block") or (st[0] == "exclude" and len(st) > 2):
+            return None
+        path.append(st)
+        cur = src_obj
+    return path[::-1]
 
 
 def oracle(case, ia):
@@ -1074,6 +1286,8 @@ def small_scope(quick):
             p = [LEVELS[i] for i in pat]
             src = {"freq": [0.5 * i for i in range(n)], "power": p}
             yield {"stream": "small-scope", "op": "chain", "src": src, "steps": [["peaks", [1.0] * n, 1.0, 5.0]]}
+            if n >= 2 and any(i == 4 for i in pat) and (n <= 5 or not quick):
+                yield {"stream": "small-scope", "op": "chain", "src": src, "steps": [["peaks", [1.0] * n, 1.0, 5.0], ["exclude", None, "from-peaks"]]}
     # calculate_power_spectrum: one exclusion range between every pair of bin positions, block sizes 1..3
     n = 16 if quick else 24
     x = [float(((i * i * 3 + i) % 11) - 5) + (0.25 if i % 4 == 1 else 0.0) for i in range(n)]
@@ -1224,6 +1438,8 @@ def cases(tier, rng):
                 cur = [f for f in cur if a_ < f <= b_]
             baseline, cutoff = gen_peaks_step(sub, len(cur))
             steps.append(["peaks", None, baseline, cutoff])
+            if sub.chance(0.5):
+                steps.append(["exclude", None, "from-peaks"])
         if which > 4 and fr and sub.chance(0.15):
             steps.append(["again"])  # the pipeline / peak identification a second time on the same object
         if rescale:
@@ -1329,7 +1545,14 @@ def extra_coverage(results):
                 if st[0] == "peaks" and not _is_err(a):
                     k = 0 if a == "[]" else a.count(",") + 1
                     peaks["no-peak" if k == 0 else "one" if k == 1 else "several"] += 1
+    opk = {}
+    for r in results:
+        for o in r.get("ops", []):
+            nm = o.split(" ", 1)[0]
+            opk[nm] = opk.get(nm, 0) + 1
     return {
+        "protocol_ops_by_kind": dict(sorted(opk.items())),
+        "whole_chain_tie": dict(_chain_stats),
         "case_kinds": kinds,
         "error_kinds": errs,
         "chain_steps": steps,
